@@ -23,14 +23,14 @@ DEPTH = {'quick': {'rr': 5, 'stream': 5, 'chan_req': 5, 'chan_resp': 5}, 'thorou
 
 
 def bounds(tier):
-    return {'depth': DEPTH[tier], 'roles': list(DEPTH[tier]), 'links': ['tcp', 'msg']}
+    return {'depth': DEPTH[tier], 'roles': list(DEPTH[tier]), 'links': ['tcp', 'msg', 'quic']}
 
 
 # ---- reference automaton (pure function of the symbol sequence) ------------------------------------------------------
 def conn_events(role, flavour):
     """Connection-loss events the transport actually reports to the engine. The aiohttp message transports do not
     propagate an orderly websocket close (client and server) nor a read error on the server side; see DESIGN.md."""
-    if flavour == 'tcp':
+    if flavour in ('tcp', 'quic'):  # quic: both map to ConnectionTerminated, which the transport reports
         return ('eof', 'rst', 'close')
     return ('rst', 'close') if role != 'chan_resp' else ('close',)
 
@@ -320,7 +320,7 @@ def explore(role, flavour, depth, first, part):
 def make_units(tier):
     units = []
     for role, depth in DEPTH[tier].items():
-        for flavour in ('tcp', 'msg'):
+        for flavour in ('tcp', 'msg', 'quic'):
             units.append({'role': role, 'flavour': flavour, 'depth': depth, 'first': None, 'root_only': True})
             for sym in Ref(role, flavour).enabled():
                 units.append({'role': role, 'flavour': flavour, 'depth': depth, 'first': list(sym)})
